@@ -339,7 +339,8 @@ impl FromStr for StatusCode {
     type Err = InvalidStatusCode;
 
     fn from_str(s: &str) -> Result<Self, Self::Err> {
-        Ok(Self(s.parse().map_err(|_| InvalidStatusCode)?))
+        let value: u16 = s.parse().map_err(|_| InvalidStatusCode)?;
+        Self::try_from(value)
     }
 }
 
